@@ -411,7 +411,8 @@ class C04(Prop):
                             # Only earlier iterators of THIS query are suspended (abandoned but still referenced, never
                             # advanced again).  What two live iterators of one query deliver is demanded by no
                             # property, so the relaxation is narrow: rows that a suspended iterator has itself already
-                            # delivered may be missing from this evaluation, nothing else may differ.
+                            # delivered (or that share a component with one) may be missing from this evaluation,
+                            # nothing else may differ.
                             ref = run.full(qid, pool=tw, quiet=True)
                             if ref.end == "done" and aged.end == "done":
                                 emitted = set()
@@ -420,11 +421,18 @@ class C04(Prop):
                                 sim.count("probe:judged_with_suspended_iterator_of_same_query")
                                 missing = ref.rowset() - aged.rowset()
                                 extra = aged.rowset() - ref.rowset()
-                                if extra or not missing <= emitted:
+                                # the pinned engine de-duplicates on projections: a row that shares a component (the
+                                # binding of one selected variable / one field of a constructed instance) with a row
+                                # the suspended iterator delivered may be missing as well
+                                em_parts = set()
+                                for r in emitted:
+                                    em_parts |= _row_parts(r)
+                                missing = {r for r in missing if not (_row_parts(r) & em_parts)}
+                                if extra or missing:
                                     sim.violate("result-set-while-abandoned-iterator-alive", {
                                         "query": qid, "aged": aged.brief(), "twin": ref.brief(),
                                         "missing_beyond_rows_the_suspended_iterator_delivered":
-                                            sorted(map(repr, missing - emitted))[:8],
+                                            sorted(map(repr, missing))[:8],
                                         "extra": sorted(map(repr, extra))[:8]})
                             sig.append(("probe", "live-same-query", aged.end))
                         elif live:
@@ -488,6 +496,16 @@ class C04(Prop):
     # ------------------------------------------------------------------ shrinking
     def shrink_candidates(self, plan):
         yield from shrink_query_plan(plan)
+
+
+def _row_parts(row):
+    """Components of a delivered row: (variable, label) pairs of a set_of row, (field, label) pairs of a constructed
+    instance, or the label itself."""
+    if isinstance(row, tuple) and row and all(isinstance(e, tuple) and len(e) == 2 for e in row):
+        return set(row)
+    if isinstance(row, tuple) and row and isinstance(row[0], str):
+        return {e for e in row[1:] if isinstance(e, tuple)} or {("", row)}
+    return {("", row)}
 
 
 def _cache_state(pool):
